@@ -286,18 +286,24 @@ def installed(evaluator: Evaluator, rec: Recorder, rowwise_stub: bool):
         orig_ig = cls.initialize_ghe
         saved_methods[cls] = (orig_ce, orig_ig)
 
-        def ce(self, coordinates, h, field_specifier="N/A", _o=orig_ce):
+        def ce(self, coordinates, h, *a, _o=orig_ce, **kw):
+            # (signature-agnostic: a changed repository may pass further arguments)
+            field_specifier = kw.get("field_specifier", a[0] if a else "N/A")
             rec.add(kind="eval_begin", cls=type(self).__name__, n=len(coordinates), h=h, spec=field_specifier)
-            v = _o(self, coordinates, h, field_specifier=field_specifier)
+            v = _o(self, coordinates, h, *a, **kw)
             rec.add(kind="eval", cls=type(self).__name__, n=len(coordinates), h=h, spec=field_specifier, e=v,
                     coords=coordinates)
             return v
 
-        def ig(self, coordinates, h, field_specifier="N/A", _o=orig_ig):
-            fl = self.retrieve_flow(coordinates, (self.fluid if hasattr(self, "fluid") else self.ghe.bhe.fluid).rho)
+        def ig(self, coordinates, h, *a, _o=orig_ig, **kw):
+            field_specifier = kw.get("field_specifier", a[0] if a else "N/A")
+            try:
+                fl = self.retrieve_flow(coordinates, (self.fluid if hasattr(self, "fluid") else self.ghe.bhe.fluid).rho)
+            except Exception:  # noqa: BLE001
+                fl = (None, None)
             rec.add(kind="init", cls=type(self).__name__, n=len(coordinates), h=h, spec=field_specifier,
                     flow_sys=fl[0], m_flow=fl[1])
-            return _o(self, coordinates, h, field_specifier=field_specifier)
+            return _o(self, coordinates, h, *a, **kw)
 
         cls.calculate_excess = ce
         cls.initialize_ghe = ig
@@ -593,19 +599,24 @@ def run_plan(plan: dict) -> dict:
         return r
 
 
-def run_many(job: dict) -> dict:
-    """Worker entry: a job is {"prop", "seed", "start", "count", "methods"}; plans are regenerated from the seed."""
+def make_plans(job: dict) -> list:
     from .kernel import derive_rng
 
+    return [draw_plan(derive_rng(job["seed"], "E3", job["prop"], i), job["prop"], job.get("methods"))
+            for i in range(job["start"], job["start"] + job["count"])]
+
+
+def run_many(job: dict) -> dict:
+    """Worker entry: a job is {"prop", "seed", "start", "count", "methods"}; plans are regenerated from the seed."""
     outs = []
-    for i in range(job["start"], job["start"] + job["count"]):
-        rng = derive_rng(job["seed"], "E3", job["prop"], i)
-        plan = draw_plan(rng, job["prop"], job.get("methods"))
+    for k, plan in enumerate(make_plans(job)):
+        i = job["start"] + k
         r = run_plan(plan)
         r["index"] = i
         if r["status"] == "violation":
             r["plan"] = plan
-        if i - job["start"] >= 1 or job["start"] % 7:
+            r["jobspec"] = job
+        if k >= 1 or job["start"] % 7:
             r.pop("sample", None)
         outs.append(r)
     return {"status": "ok", "results": outs}
